@@ -183,6 +183,8 @@ def gen_constants(dump, custom_th=None, caps=None, track_hist=None):
         c.update(caps)
     opts = dict(dump["opts"])
     opts["switch_max_key_timing"] = dump["switch_max_key_timing"]
+    # the parser's KeyOutputs table (per layer: code -> ordered outputs), used by KeyRepeat.tla (C14)
+    opts["key_outputs"] = [{"intmap": ko} for ko in dump.get("key_outputs", [])]
     lines = []
     lines.append("ActDef == " + tla_val(acts))
     lines.append("LayerTabDef == " + tla_val(dump["layers"]))
